@@ -241,7 +241,7 @@ def rule_r3(p, res):
         r.check(ok, m, c, "after masking with `%s` the root index is not shifted by the number of removed vertices before it on every path: the "
                 "tree would be rebuilt around the wrong vertex" % mk_name, {"masking": norm(c)[:60], "reindex": [norm(n)[:60] for n in mine]})
     raises = [n for n in walk_own(m.node) if isinstance(n, ast.Raise)]
-    r.check(any(any(pol and norm(t) == "not %s[self.root_vertex]" % m.params[1] for t, pol in g.guards(n)) for n in raises), m, m.node, "removing the root vertex must be refused")
+    r.check(any(any((not pol) and norm(t) == "%s[self.root_vertex]" % m.params[1] for t, pol in g.guards(n)) for n in raises), m, m.node, "removing the root vertex must be refused")
     ctor = [c for c in calls_in(m.node) if (dotted(c.func) or "") == "PointTree"]
     r.check(bool(ctor) and all(kwarg(c, "root_vertex") is not None and norm(kwarg(c, "root_vertex")) == "root_vertex" for c in ctor), m, m.node, "the rebuilt tree must use the re-indexed root")
     r.check("csgraph.connected_components" in norm(m.node) and "labels[root_vertex]" in norm(m.node), m, m.node, "only the component connected to the root may be kept")
